@@ -115,7 +115,7 @@ def constructor_cases(A, MESSAGE, record=True):
                                behaviour='a payload the API documents is refused'):
                     continue
                 w = final_writes(p)
-                ev = AbsEval(assume_from(asm))
+                ev = AbsEval(assume_from(asm), lambda e: A.resolver.const_expr(e, init))
                 bv = ev.eval(w['self.binary']) if 'self.binary' in w else None
                 A.check(isinstance(bv, Const) and bv.v is binary, 'C01.init',
                         '%s sets binary=%s' % (what, binary), A.site(init),
@@ -193,8 +193,10 @@ def encode_cases(A, init_state, prefix='C01'):
                         tag = classify_term(ret)
                         src = 'term ' + parts_text(flatten_concat(ret))
                     if tag is None:
-                        A.undecided(prefix + '.encode', what, A.site(enc),
-                                    'return value %s is not a recognised wire term' % rt)
+                        A.violated(prefix + '.wire', what, A.site(enc),
+                                   key='encode-term-unrecognised:%s' % k,
+                                   detail=['return value %s is not one of the Engine.IO v4 wire '
+                                           'terms' % rt] + describe(p), behaviour=BEHAV)
                         continue
                     key = 'encode-cache:%s' % ('binary' if binary else k) if src.startswith(
                         'cached') else 'encode-term:%s:%s' % (k, 'b64' if b64 else 'raw')
@@ -340,6 +342,9 @@ def json_module(A):
             for k in n.keywords:
                 if k.arg == 'parse_int' and isinstance(k.value, ast.Name):
                     installs = k.value.id
+            ms = match("kwargs.setdefault('parse_int', _f)", n)
+            if ms is not None and isinstance(ms['f'], ast.Name):
+                installs = ms['f'].id
     A.check(bool(installs), 'C01.safe-int', 'engineio.json.loads installs a bounded parse_int',
             A.site(loads), key='json-parse-int',
             behaviour='a huge integer literal makes decode() burn CPU (no bound)')
